@@ -1,13 +1,13 @@
 SPECIFICATION MCSpec
 CONSTANTS
   Relax = {}
-  Mode = "honest"
-  MaxBlocks = 3
-  Layouts = {"plain"}
-  MaxUnwind = 0
+  Mode = "revoked"
+  MaxBlocks = 2
+  Layouts = {"plain", "fee_after"}
+  MaxUnwind = 1
   Features = {}
   Defect = "none"
-  MaxReload = 1
+  MaxReload = 0
 CONSTRAINT Bounded
 VIEW View
 INVARIANT TypeOK
